@@ -1,4 +1,5 @@
 """Shared driver code for the generated-Python runtime checks (C04, C05, C06, C08)."""
+import collections
 import json
 
 from mc import explore, impl, rt
@@ -68,6 +69,47 @@ def universe(tier):
 def items(tier):
     u = universe(tier)
     return [(pos, i) for pos in POSITIONS for i in range(len(u.shapes))]
+
+
+def user_shape_indices(tier):
+    """Indices of the shapes that are a bare reference to a struct or union (directly or through an alias)."""
+    u = universe(tier)
+    out = []
+    for i, s in enumerate(u.shapes):
+        if '(' in s or '?' in s:
+            continue
+        if isinstance(rt.unalias(u.ir_type('alias', i)), (dt.Struct, dt.Union)):
+            out.append(i)
+    return out
+
+
+def history_items(tier):
+    """History layer: ordered pairs (A, B) of user-type shapes.  The check's operations on A run first, then those on B, in a
+    process forked from the pristine parent (explore.pmap fresh=True), so that every (first, second) order of two user types is
+    observed with nothing else before it.  The oracle is unchanged: the reference never depends on history."""
+    idx = user_shape_indices(tier)
+    return [('history', a, b) for a in idx for b in idx if a != b]
+
+
+def history_task(body, item, tier):
+    """Run body(('alias', a)) then body(('alias', b)); violations of the second run carry the history in their inputs."""
+    _, a, b = item
+    u = universe(tier)
+    r1 = body(('alias', a))
+    r2 = body(('alias', b))
+    for v in r2.get('viol', ()):
+        if isinstance(v.get('inputs'), dict):
+            v['inputs']['history'] = u.shapes[a]
+        v['what'] += ' [history: the same operations on %s ran first in this process]' % u.shapes[a]
+    oc = collections.Counter()
+    for r in (r1, r2):
+        o = r.get('outcome')
+        if isinstance(o, dict):
+            oc.update({'h:' + k: c for k, c in o.items()})
+        elif o is not None:
+            oc['h:' + str(o)] += 1
+    return {'outcome': oc, 'viol': list(r1.get('viol', ())) + list(r2.get('viol', ())), 'n': r1.get('n', 1) + r2.get('n', 1),
+            'transitions': r1.get('transitions', 0) + r2.get('transitions', 0)}
 
 
 def json_equal(a, b):
